@@ -17,7 +17,7 @@ import os
 import vlib
 
 PID = "C15"
-NEGS = ["continue", "sleepnext", "mult", "weights", "pernext"]
+NEGS = ["continue", "sleepnext", "mult", "weights", "pernext", "grpcabort", "htmlraw"]
 INVS = ["Built", "LogOK", "GapsOK", "SamplesOK", "RingOK", "NextRowsOK", "MultiSamplesOK"]
 
 
@@ -79,7 +79,7 @@ def run(tier, v):
     # 1. design level + case export
     mod = 3 if thorough else 9
     r = vlib.tlc("ScenarioMC", "Scenario_thorough.cfg" if thorough else "Scenario_exh.cfg",
-                 env={"VERIF_SEED": vlib.seed(), "VERIF_MOD": mod}, workers=8, heap="6g", deadlock=False, timeout=2400)
+                 env={"VERIF_SEED": vlib.seed(), "VERIF_MOD": mod, "VERIF_GMOD": 1 if thorough else 2}, workers=8, heap="6g", deadlock=False, timeout=2400)
     vlib.tlc_must_pass(r, "Scenario_exh")
     vlib.log("design level: %d states, %d cases exported, %.1fs" % (r.distinct, len(cases_of(r)), r.wall))
     states += r.distinct
